@@ -6,6 +6,7 @@ import os
 import pty
 import shutil
 import subprocess
+import tempfile
 import threading
 import time
 
@@ -85,10 +86,36 @@ class Fixture:
         shutil.rmtree(self.dir, ignore_errors=True)
 
 
-def run_xt(binary, argv, cwd, stdin_bytes=None, stdout_mode="pipe", close_after=None, timeout=60):
+APPEND_PREFIX = b"# written by an earlier command\n" * 3
+
+
+def run_xt(binary, argv, cwd, stdin_bytes=None, stdout_mode="pipe", close_after=None, timeout=60, stdin_skip=None, stderr_closed=False):
     """Runs the binary.  stdout_mode: pipe | file | tty | closed (read end closed before spawn) |
-    consume (read close_after bytes, then close) | devfull.  Returns (status, stdout, stderr)."""
+    consume (read close_after bytes, then close) | devfull.  Returns (status, stdout, stderr).
+    stdin_skip (bytes): standard input is a regular file holding stdin_skip + stdin_bytes, positioned after stdin_skip (what
+    `{ read hdr; xt; } < file` gives xt): its input is stdin_bytes.
+    stdout_mode append: a regular file that already holds APPEND_PREFIX, opened for appending (`>> file`); what xt added is returned.
+    stderr_closed: standard error is a pipe whose reader is gone (pipe mode only)."""
+    if stderr_closed:
+        er, ew = os.pipe()
+        os.close(er)
+        p = subprocess.Popen([binary] + argv, cwd=cwd, stdin=subprocess.PIPE if stdin_bytes is not None else subprocess.DEVNULL,
+                             stdout=subprocess.PIPE, stderr=ew)
+        os.close(ew)
+        try:
+            out_data, _ = p.communicate(stdin_bytes, timeout=timeout)
+        except subprocess.TimeoutExpired:
+            p.kill()
+            out_data, _ = p.communicate()
+            return ("hang", 0), out_data, b""
+        return (("signal", -p.returncode) if p.returncode < 0 else ("exit", p.returncode)), out_data, b""
     stdin = subprocess.PIPE if stdin_bytes is not None else subprocess.DEVNULL
+    if stdin_skip is not None and stdout_mode != "consume":
+        tf = tempfile.TemporaryFile()
+        tf.write(stdin_skip + (stdin_bytes or b""))
+        tf.flush()
+        os.lseek(tf.fileno(), len(stdin_skip), os.SEEK_SET)
+        stdin, stdin_bytes = tf, None
     out_data = b""
     if stdout_mode == "pipe":
         p = subprocess.Popen([binary] + argv, cwd=cwd, stdin=stdin, stdout=subprocess.PIPE, stderr=subprocess.PIPE)
@@ -98,9 +125,13 @@ def run_xt(binary, argv, cwd, stdin_bytes=None, stdout_mode="pipe", close_after=
             p.kill()
             out_data, err = p.communicate()
             return ("hang", 0), out_data, err
-    elif stdout_mode in ("file", "devfull"):
+    elif stdout_mode in ("file", "devfull", "append"):
         target = "/dev/full" if stdout_mode == "devfull" else os.path.join(cwd, ".stdout.%d" % threading.get_ident())
-        with open(target, "wb") as f:
+        if stdout_mode == "append":
+            with open(target, "wb") as f:
+                f.write(APPEND_PREFIX)
+        # `>> file` as a shell opens it: O_APPEND with the offset still 0 (Python's "ab" would seek to the end)
+        with (os.fdopen(os.open(target, os.O_WRONLY | os.O_APPEND), "wb", buffering=0, closefd=True) if stdout_mode == "append" else open(target, "wb")) as f:
             p = subprocess.Popen([binary] + argv, cwd=cwd, stdin=stdin, stdout=f, stderr=subprocess.PIPE)
             try:
                 _, err = p.communicate(stdin_bytes, timeout=timeout)
@@ -108,9 +139,12 @@ def run_xt(binary, argv, cwd, stdin_bytes=None, stdout_mode="pipe", close_after=
                 p.kill()
                 _, err = p.communicate()
                 return ("hang", 0), b"", err
-        if stdout_mode == "file":
+        if stdout_mode in ("file", "append"):
             out_data = open(target, "rb").read()
             os.unlink(target)
+            if stdout_mode == "append":
+                out_data = out_data[len(APPEND_PREFIX):] if out_data.startswith(APPEND_PREFIX) else \
+                    b"<<what the file held before xt ran is damaged>>" + out_data
     elif stdout_mode == "tty":
         master, slave = pty.openpty()
         p = subprocess.Popen([binary] + argv, cwd=cwd, stdin=stdin, stdout=slave, stderr=subprocess.PIPE)
@@ -225,8 +259,9 @@ def parse_cp(line):
 
 
 class Case:
-    def __init__(self, argv, stdin=None, mode="pipe", close_after=None, fifos=None):
+    def __init__(self, argv, stdin=None, mode="pipe", close_after=None, fifos=None, stdin_skip=None):
         self.argv, self.stdin, self.mode, self.close_after = argv, stdin, mode, close_after
+        self.stdin_skip = stdin_skip      # bytes: stdin is a regular file positioned after these bytes (see run_xt)
         # relative path -> bytes a writer feeds into that FIFO (a list of pieces: written one by one, with a pause in between)
         self.fifo_pieces = {k: (list(v) if isinstance(v, (list, tuple)) else [v]) for k, v in (fifos or {}).items()}
         self.fifos = {k: b"".join(v) for k, v in self.fifo_pieces.items()}
@@ -250,7 +285,7 @@ def run_case(binary, cwd, c):
         t = threading.Thread(target=feed, daemon=True)
         t.start()
         threads.append((t, path))
-    res = run_xt(binary, c.argv, cwd, c.stdin, c.mode, c.close_after)
+    res = run_xt(binary, c.argv, cwd, c.stdin, c.mode, c.close_after, stdin_skip=c.stdin_skip)
     for t, path in threads:
         if t.is_alive():
             try:      # xt never opened it: release the writer
@@ -336,7 +371,7 @@ def predict_and_run(binary, cwd, cases, jobs=16):
             parts.append("%s:%s:%d:%s" % (inp["path"].hex(), inp["open"], ok, tr.hex()))
             if not ok:
                 break
-        kind = {"pipe": "P", "file": "F", "tty": "T", "closed": "P", "consume": "P", "devfull": "F"}[c.mode]
+        kind = {"pipe": "P", "file": "F", "append": "F", "tty": "T", "closed": "P", "consume": "P", "devfull": "F"}[c.mode]
         fault, broken = "-", "0"
         if c.mode == "closed":
             fault, broken = "0", "1"
@@ -384,11 +419,11 @@ def compare(r, check_stdout=True):
     diffs = []
     if status != pred["status"]:
         diffs.append("status: predicted %s, observed %s" % (pred["status"], status))
-    if check_stdout and pred.get("stdout") is not None and c.mode in ("pipe", "file", "tty") and out != pred["stdout"]:
+    if check_stdout and pred.get("stdout") is not None and c.mode in ("pipe", "file", "append", "tty") and out != pred["stdout"]:
         diffs.append("stdout: predicted %d bytes %r..., observed %d bytes %r..." % (len(pred["stdout"]), pred["stdout"][:60], len(out), out[:60]))
     if p["kind"] == "exit0":
         want = {"version": b"xt ", "help-short": b"Usage: ", "help-long": b" - Translate between serialized data formats"}[pred["which"]]
-        if c.mode in ("pipe", "file") and want not in out:
+        if c.mode in ("pipe", "file", "append") and want not in out:
             diffs.append("stdout lacks the %s text" % pred["which"])
     se = pred["stderr"]
     if se == "none":
